@@ -14,6 +14,7 @@ func checkC17(p *Prog, r *Report) {
 	c17Consumer(p, r)
 	dispatcherRule(p, r, "C17.R5")
 	c17LineCounter(p, r)
+	c17Output(p, r)
 }
 
 type rangePrint struct {
